@@ -13,7 +13,8 @@ iteration order (`pi`) the harness supplies.
           repair: by annotation-type name only)}
 * `decl.order.imports`  {"self": "a", "package": "pkg", "st": [[ns, [alias, dataType, annotation, annotationType]] ..],
                          "pi": [ns ..], "flags": [m, a, t]} -> {"imported": [ns ..], "lines": [..]}
-* `decl.order.sort`     {"pi": [str ..]} -> {"sorted": [..], "typing": [..], "adhoc": [..]}
+* `decl.order.sort`     {"pi": [str ..]} -> {"sorted": [..], "typing": [..], "adhoc": [..] (the stub's ad-hoc import block:
+                         sorted), "adhoc_unsorted": [..] (the block before the stub repair: set order)}
 * `decl.order.routes`   {"pi": [[name, version] ..]} -> {"routes": [[name, version] ..], "reprs": [..]}
 * `decl.order.routeio`  {"self": "a", "pi": [[ns, name] ..]} -> {"types": [[ns, name] ..], "foreign": [ns ..]}
 * `decl.order.outdir`   {"dir": [[path, [byte ..]] ..], "writes": [[path, "wb"|"ab", text] ..]}
@@ -140,7 +141,7 @@ def handle (op : String) (j : Json) : Except String Json := do
   | "decl.order.sort" =>
     let pi ← strList j "pi"
     pure <| ok [("sorted", jstrs (sortBy id strLe pi)), ("typing", jstrs (typingImportLines pi)),
-                ("adhoc", jstrs (adhocImportLines pi))]
+                ("adhoc", jstrs (adhocImportLines pi)), ("adhoc_unsorted", jstrs (adhocImportLinesUnsorted pi))]
   | "decl.order.routes" =>
     let pi ← (← jarr j "pi").toList.mapM fun e => do
       match (← e.getArr?).toList with
